@@ -84,4 +84,27 @@ Section Facts.
     apply bytes_eqb_eq in HH, N. subst.
     repeat eexists; eauto.
   Qed.
+  (* ---- and conversely: tokens with these properties are accepted (the checks demand nothing else) ---- *)
+  Theorem prove_to_rv_complete registered nonce body prot unprot pl sig eat guid key :
+    open_token body = Some (prot, unprot, pl, sig, eat) ->
+    claim 10 eat = Some (VBytes nonce) -> claim 256 eat = Some (VBytes (byte_of_N 1 :: guid)) -> length guid = 16%nat ->
+    registered guid = Some key ->
+    sign1_verify O_der O_rfc O_verify TRaw TBytes key prot (Some (VRaw pl)) None sig (VBytes []) = Ok true ->
+    prove_to_rv_ok O_der O_rfc O_verify registered nonce body = true.
+  Proof.
+    intros OT C10 C256 L RG SG. unfold prove_to_rv_ok. rewrite OT, C10, C256, bytes_eqb_refl.
+    cbn [andb]. rewrite L, RG. unfold Owner.token_signed. rewrite SG. reflexivity.
+  Qed.
+
+  Theorem prove_device_complete devkey guid nonce xb_ok body prot unprot pl sig eat xb sn :
+    open_token body = Some (prot, unprot, pl, sig, eat) ->
+    Crypter.parse_hdr O_der O_rfc (TFixed 16) (-259) unprot = Ok (Some sn) ->
+    sign1_verify O_der O_rfc O_verify TRaw TBytes devkey prot (Some (VRaw pl)) None sig (VBytes []) = Ok true ->
+    claim 10 eat = Some (VBytes nonce) -> claim 256 eat = Some (VBytes (byte_of_N 1 :: guid)) ->
+    claim (-257) eat = Some (VList [VBytes xb]) -> xb_ok xb = true ->
+    prove_device_ok O_der O_rfc O_verify devkey guid nonce xb_ok body = true.
+  Proof.
+    intros OT PH SG C10 C256 C257 XB. unfold prove_device_ok. rewrite OT, PH. unfold Owner.token_signed. rewrite SG.
+    rewrite C10, C256, C257, !bytes_eqb_refl, XB. reflexivity.
+  Qed.
 End Facts.
